@@ -550,6 +550,7 @@ void run_one(const HarnessDef *h, uint64_t seed, const Decisions *replay, bool t
     for (int k = 0; k < 8; k++) run.pct_points[k] = 1 + run.rng.below((uint32_t)run.cfg.pct_len);
   }
   run.now_ns = 1000000000ULL * (1 + choose(ST_GEN, 1000));   // random clock origin
+  uint64_t origin_ns = run.now_ns;
   Task *root = spawn(0, h->root, false);
   (void)root;
   // enter
@@ -565,7 +566,7 @@ void run_one(const HarnessDef *h, uint64_t seed, const Decisions *replay, bool t
   run.res.steps = run.steps;
   run.res.log_hash = run.log_hash;
   run.res.order_hash = run.order_hash;
-  run.res.sim_ns = run.now_ns;
+  run.res.sim_ns = run.now_ns - origin_ns;
   for (int i = 0; i < ST_MAX; i++) run.res.fired[i] = run.fired[i];
   kern::run_end();
   shim_run_end();
